@@ -19,7 +19,7 @@ def configs(tier):
     cs = [Config(levels=1, ndisks=2),
           Config(levels=2, ndisks=3, contents=["c0/content", "d1/.content"], splits={0: 2, 1: 2}, parity_limit=6144),
           Config(levels=3, z=True, ndisks=3, hashkind="spooky2", hashsize=8),
-          Config(levels=6, ndisks=2),
+          Config(levels=6, ndisks=2, uuid=True),
           Config(levels=2, ndisks=3, tag="hole"),
           Config(levels=2, ndisks=2, tag="rehash"),
           Config(levels=1, ndisks=4, tag="sparse")]
